@@ -13,6 +13,7 @@ Open Scope Z_scope.
 Inductive c12case :=
 | C12Seq (c : svcase)
 | C12Walk (c : svcase)      (* any conversation without transport faults that ends with every handler returned and the probe *)
+| C12Dead (wedged : bool)   (* the server process died (false) or never became quiescent again (true) in this scenario *)
 | C12Method (raw : bytes) (r : option (bytes * bytes))
 | C12Shape (raw : bytes) (k : mkind).
 
@@ -154,6 +155,38 @@ Definition spec_seq (c : svcase) : list nat :=
       else [6%nat]    (* a conversation of this rig must never block the read loop or end the connection *)
   end.
 
+(* isolation (C05, server side): every message RecvMsg returned to stream handler h is the body of an envelope that
+   was delivered, with h's id, after the envelope that started h; per handler in delivery order, each at most once *)
+Fixpoint drop_until (h : nat) (pairs : list (act * obs)) : list (act * obs) :=
+  match pairs with
+  | [] => []
+  | (a, o) :: rest =>
+      if existsb (fun e => match e with SvInvoke g _ _ _ _ _ => Nat.eqb g h | _ => false end) (o_events o)
+      then rest else drop_until h rest
+  end.
+Definition bodies_for (id : Z) (pairs : list (act * obs)) : list Z :=
+  flat_map (fun p => match fst p with
+                     | ADeliver f => if (fid f =? id) && negb (has_trl f) && negb (is_rst f)
+                                     then [body_tok f] else []
+                     | _ => [] end) pairs.
+Fixpoint subseqZ (a b : list Z) : bool :=
+  match a, b with
+  | [], _ => true
+  | _ :: _, [] => false
+  | x :: a', y :: b' => if x =? y then subseqZ a' b' else subseqZ a b'
+  end.
+Definition isolated (c : svcase) : bool :=
+  match c with
+  | CSrv acts observed =>
+      let pairs := combine acts observed in
+      let evs := flat_map o_events observed in
+      forallb (fun e => match e with
+                        | SvInvoke h false id _ _ _ =>
+                            let got := flat_map (fun e' => match e' with SvOp g (ORecvMsg b) => if Nat.eqb g h then [b] else [] | _ => [] end) evs in
+                            subseqZ got (bodies_for id (drop_until h pairs))
+                        | _ => true end) evs
+  end.
+
 (* at the end: nothing unread, registry empty, no handler goroutine, connection alive *)
 Definition ends_idle (c : svcase) : bool :=
   match c with
@@ -171,7 +204,9 @@ Definition spec_first (fuel : nat) (spec : list nat) (sc : svcase) : list nat :=
 Definition check_case_f (fuel : nat) (c : c12case) : list nat :=
   match c with
   | C12Seq sc => spec_first fuel (nodup Nat.eq_dec (spec_seq sc)) sc
-  | C12Walk sc => spec_first fuel ((if probe_answered sc then [] else [4%nat]) ++ (if ends_idle sc then [] else [6%nat])) sc
+  | C12Walk sc => spec_first fuel ((if probe_answered sc then [] else [4%nat]) ++ (if ends_idle sc then [] else [6%nat])
+                                   ++ (if isolated sc then [] else [9%nat])) sc
+  | C12Dead wedged => if wedged then [8%nat] else [7%nat]
   | C12Method raw r => if opt_eqb pair_bytes_eqb (parse_method raw) r then [] else [1%nat]
   | C12Shape raw k => if mkind_eqb (kind_of_method raw) k then [] else [1%nat]
   end.
